@@ -52,6 +52,7 @@ def prepare_multi(case):
     base["schemas"] = spec["components"]["schemas"]
     base["ops"] = selected_ops(spec, only, exclude)
     base["path_params"] = []
+    base["sel_ids"] = [op["operationId"] for op in base["ops"]]
     return {"op": case["op"], "in": dict(d, **base)}
 
 
@@ -63,7 +64,8 @@ def selections(ids, r, quick):
     for _ in range(4):
         k = r.randint(1, max(1, len(ids) - 1))
         rest.append((r.choice(["only", "exclude"]), sorted(r.sample(ids, k))))
-    return sels + (r.sample(rest, 3) if quick else rest)
+    rest = [x for x in rest if x[1]]
+    return sels + (r.sample(rest, min(3, len(rest))) if quick else rest)
 
 
 def multi_cases(ctx):
